@@ -519,6 +519,12 @@ func shouldUseDigitPrefilter(re *syntax.Regexp, nfaSize int, config Config) bool
 	if nfaSize > digitPrefilterMaxNFAStates {
 		return false
 	}
+	// Candidates are verified with the lazy DFA only, so the patterns that are
+	// kept away from the pure-DFA path (see the tiny-NFA guards in SelectStrategy)
+	// must not be routed here either.
+	if hasCaseInsensitiveUnicode(re) || hasWordBoundaryAnchorCombo(re) || hasMultilineLineAnchor(re) {
+		return false
+	}
 	return isDigitLeadPattern(re)
 }
 
@@ -596,6 +602,44 @@ func hasDotStarPrefix(re *syntax.Regexp) bool {
 	// .* = OpStar(OpAnyChar or OpAnyCharNotNL)
 	return first.Op == syntax.OpStar && len(first.Sub) > 0 &&
 		(first.Sub[0].Op == syntax.OpAnyChar || first.Sub[0].Op == syntax.OpAnyCharNotNL)
+}
+
+// isDotStarLiteralSuffix reports whether a pattern is `.*` followed ONLY by exact
+// (case-sensitive) literals, optionally ending in an alternation of exact literals.
+// Only then do the extracted suffix literals cover everything after `.*`, so that the
+// reverse suffix searchers may skip the reverse DFA verification (matchStartZero).
+// Patterns like `.*(?i:a)txt` or `.*a+txt` have unverified content between `.*` and
+// the suffix literal and must take the verified path.
+func isDotStarLiteralSuffix(re *syntax.Regexp) bool {
+	if !hasDotStarPrefix(re) {
+		return false
+	}
+	for re.Op == syntax.OpCapture && len(re.Sub) > 0 {
+		re = re.Sub[0]
+	}
+	for i, sub := range re.Sub[1:] {
+		if !isExactLiteralTail(sub, i == len(re.Sub)-2) {
+			return false
+		}
+	}
+	return true
+}
+
+// isExactLiteralTail reports whether re is a case-sensitive literal or, if allowAlt,
+// an alternation of case-sensitive literals (captures are unwrapped).
+func isExactLiteralTail(re *syntax.Regexp, allowAlt bool) bool {
+	for re.Op == syntax.OpCapture && len(re.Sub) > 0 {
+		re = re.Sub[0]
+	}
+	if re.Op == syntax.OpAlternate && allowAlt {
+		for _, sub := range re.Sub {
+			if !isExactLiteralTail(sub, false) {
+				return false
+			}
+		}
+		return true
+	}
+	return re.Op == syntax.OpLiteral && re.Flags&syntax.FoldCase == 0
 }
 
 // isWildcardSubexpression checks if a subexpression acts as a "wildcard" that can
